@@ -1426,8 +1426,8 @@ func c17Run(t *testing.T, rep *verifkit.Report, strace bool) {
 	rep.Assume("a read is recognised by content: every tree file holds a unique rule, looked for in stored list files, response bodies, rule counts and CheckHost")
 
 	fixed, pool := c17PatternPool(tr.root)
-	nRandomCfg := verifkit.Pick(16, 180)
-	nRandomLoc := verifkit.Pick(110, 260)
+	nRandomCfg := verifkit.Pick(16, 110)
+	nRandomLoc := verifkit.Pick(110, 240)
 	cfgs := append([]c17Cfg(nil), fixed...)
 	for i := 0; i < nRandomCfg; i++ {
 		n := 1 + rng.Intn(4)
